@@ -134,6 +134,9 @@ func main() {
 		os.Exit(2)
 	}
 	cmd := os.Args[1]
+	if extraCmd(cmd, os.Args[2:]) {
+		return
+	}
 	fs := flag.NewFlagSet(cmd, flag.ExitOnError)
 	seed := fs.Int64("seed", 1, "")
 	nseq := fs.Int("nseq", 1, "")
@@ -171,9 +174,7 @@ func main() {
 		res := runReplay(*opsf, *size, *unst, *out)
 		json.NewEncoder(os.Stdout).Encode([]seqResult{res})
 	default:
-		if !extraCmd(cmd, os.Args[2:]) {
-			fmt.Fprintln(os.Stderr, "unknown command", cmd)
-			os.Exit(2)
-		}
+		fmt.Fprintln(os.Stderr, "unknown command", cmd)
+		os.Exit(2)
 	}
 }
